@@ -2,6 +2,8 @@
 #![allow(unused)]
 use std::time::Duration;
 
+/// harness knob: the power has overflowed to +inf (multiplier > 1 and a large attempt)
+static mut VX_POW_OVERFLOWED: bool = false;
 /// ASSUMED contract of f64::powi for base in [1,10]: result >= 1, non-decreasing in the exponent, may be +inf, never NaN.
 /// The stub also checks what the caller hands over: the exponent saturates instead of wrapping.
 fn vx_powi(base: f64, exponent: i32, attempt: usize) -> f64 {
@@ -9,6 +11,7 @@ fn vx_powi(base: f64, exponent: i32, attempt: usize) -> f64 {
     {
         assert!(exponent >= 0, "exponent must not wrap negative");
         assert!(exponent as usize == attempt.min(i32::MAX as usize), "exponent saturates at i32::MAX");
+        if unsafe { VX_POW_OVERFLOWED } { return f64::INFINITY; }
         let r: f64 = kani::any();
         kani::assume(!r.is_nan() && r >= 1.0);
         kani::assume(exponent != 0 || r == 1.0);
@@ -92,6 +95,33 @@ mod harnesses {
         let cap = any_duration();
         let r = capped_exponential(Duration::ZERO, m, attempt, if has_cap { Some(cap) } else { None });
         assert!(r == Duration::ZERO);
+    }
+    /// C14 (non-decreasing, "never above max_interval afterwards"): once multiplier^attempt has overflowed, a positive initial interval
+    /// yields exactly the cap (Duration::MAX without one) — the delay does not fall back below what earlier attempts returned
+    #[kani::proof]
+    fn backoff_saturates_at_the_cap() {
+        let initial = any_duration();
+        kani::assume(initial > Duration::ZERO);
+        let m = any_multiplier();
+        let attempt: usize = kani::any();
+        let has_cap: bool = kani::any();
+        let cap = any_duration();
+        unsafe { VX_POW_OVERFLOWED = true; }
+        let r = capped_exponential(initial, m, attempt, if has_cap { Some(cap) } else { None });
+        assert!(r == if has_cap { cap } else { Duration::MAX });
+    }
+    /// C14 (non-decreasing): a positive initial interval never yields a zero delay unless the cap is zero
+    #[kani::proof]
+    fn backoff_positive_stays_positive() {
+        let initial = any_duration();
+        kani::assume(initial > Duration::ZERO);
+        let m = any_multiplier();
+        let attempt: usize = kani::any();
+        let has_cap: bool = kani::any();
+        let cap = any_duration();
+        kani::assume(cap > Duration::ZERO);
+        let r = capped_exponential(initial, m, attempt, if has_cap { Some(cap) } else { None });
+        assert!(r > Duration::ZERO);
     }
     /// C14: jittered delay never panics (range is non-empty and finite, conversion in range) for every base delay and factor in [0,1].
     #[kani::proof]
